@@ -108,35 +108,30 @@ def run (api : List ApiDefine) (files : List (String × List Line)) : String :=
       | .ok out => (" ".intercalate ("ok" :: out.map showTok))
 
 
-/-! ## classification: is every block of the program in the class of `Thm.C12.expand_refines_spec_decided`?
+/-! ## classification: is every block of the program in the class of `Thm.C12.expand_refines_spec_with_paste_decided`?
 
 The same walk over the lines as `Model.Include` (`stepLine` / `runFile` / `includeFile`), carrying a flag: every block
-of text lines is expanded under a table with pairwise distinct names and well-formed replacement lists without `##`
-(`wfB`), and `tameRun` accepts it. -/
+of text lines is expanded under a table with pairwise distinct names and well-formed replacement lists
+(`wfPB`), and `tameRunP` accepts it. -/
 
 def namesDistinct : List String → Bool
   | [] => true
   | n :: r => !r.contains n && namesDistinct r
 
 /-- is this block in the class? -/
-def blockTame (withPaste : Bool) (macros : List Macro) (active : List PTok) : Bool :=
-  namesDistinct (macros.map (·.name)) &&
-    (if withPaste then
-      macros.all wfPB && (tameRunP (16 * active.length + 256) (macros.map (⟨·, false⟩)) active).isSome
-     else
-      macros.all wfB && (tameRun (16 * active.length + 256) (macros.map (⟨·, false⟩)) active).isSome)
+def blockTame (macros : List Macro) (active : List PTok) : Bool :=
+  namesDistinct (macros.map (·.name)) && macros.all wfPB && active.all (fun t => t.tok != .concat) &&
+    (tameRunP (16 * active.length + 256) (macros.map (⟨·, false⟩)) active).isSome
 
 structure TState where
   st : State
   tame : Bool
-  /-- the class with `##` (`tameRunP`) -/
-  withPaste : Bool := false
 
 /-- `boundary`: the block ends where a file is included or an included file ends.  C has no block boundary there
 (inclusion is textual), so the class also requires that such a block does not end in the name of a function-like macro
 (an invocation that would span the boundary of a file). -/
 def tflush (ts : TState) (active : List PTok) (boundary : Bool := false) : Except Err TState :=
-  let ok := ts.tame && blockTame ts.withPaste ts.st.macros active
+  let ok := ts.tame && blockTame ts.st.macros active
   match flush ts.st active with
   | .error e => .error e
   | .ok st =>
@@ -145,7 +140,7 @@ def tflush (ts : TState) (active : List PTok) (boundary : Bool := false) : Excep
       (match lastTok produced with
        | some (.id g) => ts.st.macros.any (fun m => m.name == g && m.isFunction)
        | _ => false)
-    .ok ⟨st, ok && !spans, ts.withPaste⟩
+    .ok ⟨st, ok && !spans⟩
 
 def tstepLine (inc : String → TState → Except Err TState) (cur : String) :
     TState × List PTok → Line → Except Err (TState × List PTok)
@@ -156,14 +151,14 @@ def tstepLine (inc : String → TState → Except Err TState) (cur : String) :
     | .ok ts =>
       match doDefine ts.st.macros cmd with
       | .error e => .error e
-      | .ok ms => .ok (⟨{ ts.st with macros := ms }, ts.tame, ts.withPaste⟩, [])
+      | .ok ms => .ok (⟨{ ts.st with macros := ms }, ts.tame⟩, [])
   | (ts, active), .undef cmd =>
     match tflush ts active with
     | .error e => .error e
     | .ok ts =>
       match doUndef ts.st.macros cmd with
       | .error e => .error e
-      | .ok ms => .ok (⟨{ ts.st with macros := ms }, ts.tame, ts.withPaste⟩, [])
+      | .ok ms => .ok (⟨{ ts.st with macros := ms }, ts.tame⟩, [])
   | (ts, active), .pragmaWarning =>
     match tflush ts active with
     | .error e => .error e
@@ -171,7 +166,7 @@ def tstepLine (inc : String → TState → Except Err TState) (cur : String) :
   | (ts, active), .pragmaOnce =>
     match tflush ts active with
     | .error e => .error e
-    | .ok ts => .ok (⟨{ ts.st with once := cur :: ts.st.once }, ts.tame, ts.withPaste⟩, [])
+    | .ok ts => .ok (⟨{ ts.st with once := cur :: ts.st.once }, ts.tame⟩, [])
   | (ts, active), .incl name =>
     match tflush ts active true with
     | .error e => .error e
@@ -204,14 +199,14 @@ def tincludeFile (h : Handler) : Nat → String → TState → Except Err TState
       else trunFile (tincludeFile h fuel) name ts lines
 
 /-- `tame`: every block is in the class and the model's run succeeds; `not-tame` otherwise -/
-def classify (api : List ApiDefine) (files : List (String × List Line)) (withPaste : Bool := false) : String :=
+def classify (api : List ApiDefine) (files : List (String × List Line)) : String :=
   match files with
   | [] => "bad-request"
   | (entry, lines) :: _ =>
     match initialMacros [] api with
     | .error _ => "not-tame"
     | .ok ms =>
-      match trunFile (tincludeFile (handlerOf files) RsslVerif.Gen.MacroTables.maxIncludeDepth) entry ⟨{ macros := ms, out := [], once := [] }, true, withPaste⟩ lines with
+      match trunFile (tincludeFile (handlerOf files) RsslVerif.Gen.MacroTables.maxIncludeDepth) entry ⟨{ macros := ms, out := [], once := [] }, true⟩ lines with
       | .error _ => "not-tame"
       | .ok ts => if ts.tame then "tame" else "not-tame"
 
@@ -224,10 +219,6 @@ def handle (op : String) (args : List String) : String :=
   | "C12.tame", api :: files =>
     match parseApi api, sequenceOpt (files.map parseFile) with
     | some api, some files => classify api files
-    | _, _ => "bad-request"
-  | "C12.tameP", api :: files =>
-    match parseApi api, sequenceOpt (files.map parseFile) with
-    | some api, some files => classify api files true
     | _, _ => "bad-request"
   | "C12.limit", _ => "unsupported (resource test on the real code only)"
   | _, _ => "unsupported-op"
